@@ -93,7 +93,6 @@ theorem agree_on_lifecycle :
       !quiescent s || agrees s) = true := by decide
 
 /-- TEST: at the end everything is retired, nothing is pending, active or allocated -/
--- TMP
 theorem final_on_lifecycle :
     let s := run (init {}) lifecycle
     quiescent s = true ∧ s.table = [] ∧ s.queues.all (fun q => q.pending.isEmpty && q.active.isEmpty) = true ∧
